@@ -158,7 +158,7 @@ func (w *World) ledgerProbes(full bool, withIGP bool) []Probe {
 	if withIGP {
 		for _, mf := range []string{"0uusdc", "5uusdc", "500uigp"} {
 			f := w.FwdHypIGP(mf)
-			out = append(out, mk(orbEnc[0], memoM{fmt.Sprintf("hypIGP(maxfee=%s)/fee0", mf), Memo(f, nil), &f, nil}, "channel-0", denomUSDC, "4000", false))
+			out = append(out, mk(orbEnc[0], memoM{fmt.Sprintf("%s/fee0", f), Memo(f, nil), &f, nil}, "channel-0", denomUSDC, "4000", false))
 		}
 	}
 	return out
